@@ -26,9 +26,16 @@ def f_and(*xs):
             out.append(x)
     if not out:
         return TRUE
-    if len(out) == 1:
-        return out[0]
-    return ("and", tuple(out))
+    uniq = []
+    for x in out:
+        if x not in uniq:
+            uniq.append(x)
+    for x in uniq:
+        if f_not(x) in uniq:
+            return FALSE
+    if len(uniq) == 1:
+        return uniq[0]
+    return ("and", tuple(uniq))
 
 
 def f_or(*xs):
@@ -44,9 +51,38 @@ def f_or(*xs):
             out.append(x)
     if not out:
         return FALSE
-    if len(out) == 1:
-        return out[0]
-    return ("or", tuple(out))
+    uniq = []
+    for x in out:
+        if x not in uniq:
+            uniq.append(x)
+    for x in uniq:
+        if f_not(x) in uniq:
+            return TRUE
+    # absorption of the common shape (A && X) || (A && !X)  ->  A
+    changed = True
+    while changed and len(uniq) > 1:
+        changed = False
+        for i in range(len(uniq)):
+            for j in range(i + 1, len(uniq)):
+                a, b = uniq[i], uniq[j]
+                la = list(a[1]) if a[0] == "and" else [a]
+                lb = list(b[1]) if b[0] == "and" else [b]
+                if len(la) == len(lb):
+                    da = [x for x in la if x not in lb]
+                    db = [x for x in lb if x not in la]
+                    if len(da) == 1 and len(db) == 1 and f_not(da[0]) == db[0]:
+                        rest = [x for x in la if x in lb]
+                        merged = f_and(*rest)
+                        uniq = [u for k, u in enumerate(uniq) if k not in (i, j)] + [merged]
+                        changed = True
+                        break
+            if changed:
+                break
+        if TRUE in uniq:
+            return TRUE
+    if len(uniq) == 1:
+        return uniq[0]
+    return ("or", tuple(uniq))
 
 
 def f_not(x):
@@ -181,7 +217,16 @@ class Formulas:
                         return f
         for d in defs:
             if d[0] == "call":
-                val = self.atom_of_term(("call", d[2].name, tuple(self.terms.operand(a, 8) for a in d[2].args), d[2].bb))
+                val = None
+                nm = d[2].name
+                if nm in ("std::option::Option::is_some", "std::option::Option::is_none") and d[2].args:
+                    src = self._ref_source(d[2].args[0])
+                    if src is not None:
+                        vf = self._variant_of_place(src, "Some", 4)
+                        if vf is not None:
+                            val = vf if nm.endswith("is_some") else f_not(vf)
+                if val is None:
+                    val = self.atom_of_term(("call", d[2].name, tuple(self.terms.operand(a, 8) for a in d[2].args), d[2].bb))
             else:
                 rv = d[3]["rv"]
                 if "use" in rv:
@@ -238,8 +283,15 @@ class Formulas:
                 names = {dv: n for dv, n, _ in vs}
         listed = [v for v, _ in targets]
 
+        expanded = None
+        if names and len(names) == 2 and cond_t[0] == "discr":
+            expanded = self.variant_formula(t["switch"], names)
+
         def a_for(v):
             if v in names:
+                if len(names) == 2 and expanded is not None:
+                    hi = max(names)
+                    return expanded if v == hi else f_not(expanded)
                 if len(names) == 2:
                     # canonical atom = the variant with the highest discriminant (Some / Err / ...)
                     hi = max(names)
@@ -261,6 +313,85 @@ class Formulas:
             else:
                 conds.append(f_and(*[f_not(a_for(v)) for v in listed]))
         return f_or(*conds)
+
+    def _ref_source(self, op):
+        """the plain local an operand `&local` (possibly through a temporary) refers to."""
+        pl = op.get("c", op.get("m")) if isinstance(op, dict) else None
+        for _ in range(4):
+            if not isinstance(pl, int):
+                return None
+            ds = self.fn.defs().get(pl, [])
+            if len(ds) != 1 or ds[0][0] != "stmt":
+                return None
+            rv = ds[0][3]["rv"]
+            if "ref" in rv:
+                src = rv["ref"]
+                if isinstance(src, int):
+                    return src
+                if isinstance(src, dict) and all(p == "*" for p in src["p"]):
+                    pl = src["l"]
+                    continue
+                return None
+            if "use" in rv and isinstance(rv["use"], dict):
+                pl = rv["use"].get("c", rv["use"].get("m"))
+                continue
+            return None
+        return None
+
+    def variant_formula(self, switch_op, names, depth=4):
+        """formula of `<place> is <highest variant>` when the tested place is a plain local whose definitions are
+        aggregates of a known variant or copies of other places (e.g. `let origin = if c { item.origin } else { Some(..) }`)."""
+        fn = self.fn
+        l = switch_op.get("m", switch_op.get("c"))
+        if not isinstance(l, int):
+            return None
+        pl = None
+        for d in fn.defs().get(l, []):
+            if d[0] == "stmt" and "discr" in d[3]["rv"]:
+                pl = d[3]["rv"]["discr"]
+        hi = max(names)
+        return self._variant_of_place(pl, names[hi], depth)
+
+    def _variant_of_place(self, pl, vname, depth):
+        fn = self.fn
+        if not isinstance(pl, int) or depth <= 0:
+            return None
+        defs = fn.defs().get(pl, [])
+        if not defs or (1 <= pl <= fn.argc()):
+            return None
+        multi = len(defs) > 1
+        if multi:
+            bbs = [d[1] for d in defs]
+            for a in bbs:
+                for b in bbs:
+                    if a != b and self.cfg.dominates(a, b):
+                        return None
+        alts = []
+        interesting = False
+        for d in defs:
+            cond = self.reach(d[1]) if multi else TRUE
+            if d[0] == "stmt":
+                rv = d[3]["rv"]
+                if "agg" in rv and rv["agg"].get("variant"):
+                    val = TRUE if rv["agg"]["variant"] == vname else FALSE
+                    interesting = True
+                elif "use" in rv and isinstance(rv["use"], dict) and ("c" in rv["use"] or "m" in rv["use"]):
+                    src = rv["use"].get("c", rv["use"].get("m"))
+                    sub = self._variant_of_place(src, vname, depth - 1) if isinstance(src, int) else None
+                    if sub is not None:
+                        val = sub
+                    else:
+                        val = self.atom_of_term(self.terms.place(src, 10) if not isinstance(src, int) else self.terms.local(src, 10), " is " + vname)
+                    interesting = interesting or multi
+                else:
+                    val = self.atom_of_term(self.terms.rvalue(rv, 10), " is " + vname)
+            else:
+                c = d[2]
+                val = self.atom_of_term(("call", c.name, tuple(self.terms.operand(a, 10) for a in c.args), c.bb), " is " + vname)
+            alts.append(f_and(cond, val))
+        if not interesting:
+            return None
+        return f_or(*alts)
 
     def reach(self, bb):
         if bb in self._reach:
